@@ -196,6 +196,13 @@ def variants(rng, d, tmp, tag, which=('lazy', 'raw', 'view_of_file', 'big_endian
                         changed = True
             if changed:
                 yield 'integer connectivity tables held as signed bytes (padding -1)', nt, base.copy(deep=True), None
+        if 'explicit_options' in which and d is not None and len(d.spec['kinds'].get('face', [])) == 2:
+            # the first variable of the dataset spans the grid with its surface dimensions the other way round (x before y), so
+            # the dataset meets its dimensions in that order; the same variable at the end of the reference
+            lv = gen.leading_reversed_var(rng, base.copy(deep=True), d.spec['kinds'])
+            ref = base.copy(deep=True)
+            ref['aaa_first'] = lv['aaa_first'].copy(deep=True)
+            yield 'whose first variable is stored x-major (the dataset meets the x dimension before the y dimension)', lv, ref, None
         if 'explicit_options' in which:
             # the convention made explicitly from its documented keyword options instead of being detected
             import emsarray.conventions.arakawa_c as A
@@ -297,6 +304,9 @@ def leg(ctx, rng, tmp, observe, what, families, which=None, n_per_family=1, prim
                 # a one-based mesh that names an edge dimension and stores nothing on edges: the edges are derived
                 d = gen.ugrid(rng, w=6, h=4, invalid=False, supplied=set(), edge_dim_declared=True, phantom_edge_dim=True,
                               start_index=1, fill='attr')
+            elif fam == 'shoc_standard_thirds':
+                # node coordinates with more digits than single precision holds
+                d = gen.arakawa(rng, nj=rng.randint(2, 4), ni=rng.randint(2, 4), invalid=False, thirds=True)
             elif fam == 'cf1d_refused_bounds':
                 # bounds stored with the pair dimension first: the convention warns and derives the cells from the centres
                 d = gen.cf1d(rng, ny=rng.randint(3, 5), nx=rng.randint(3, 5), bounds=True, bad_bounds='transposed')
@@ -873,8 +883,8 @@ RUNS = {
     'C03': (obs_flatten, 'flatten and wind', gen.FAMILIES, with_data, None),
     'C04': (obs_geometry, 'polygons and point lookups', gen.FAMILIES + ['cf1d_desc', 'ugrid_quads1', 'cf2d_river', 'ugrid_big_faces', 'cf1d_refused_bounds', 'ugrid_square_T'], None, ('lazy', 'raw', 'view_of_file', 'big_endian', 'mixed_precision')),
     'C05': (obs_select, 'point selection', gen.FAMILIES + ['ugrid_quads1'], with_data, None),
-    'C06': (obs_geometry, 'polygons, bounds and mask', gen.FAMILIES + ['cf1d_desc', 'cf1d_int', 'cf1d_bounds', 'ugrid_quads1', 'ugrid_big_faces', 'cf1d_refused_bounds', 'ugrid_square_T'], None, ('lazy', 'raw', 'view_of_file', 'big_endian', 'mixed_precision', 'raw_unsigned')),
-    'C07': (obs_clip_mask, 'clip masks', gen.FAMILIES, None, ('lazy', 'raw', 'view_of_file', 'big_endian')),
+    'C06': (obs_geometry, 'polygons, bounds and mask', gen.FAMILIES + ['cf1d_desc', 'cf1d_int', 'cf1d_bounds', 'ugrid_quads1', 'ugrid_big_faces', 'cf1d_refused_bounds', 'ugrid_square_T', 'shoc_standard_thirds'], None, ('lazy', 'raw', 'view_of_file', 'big_endian', 'mixed_precision', 'raw_unsigned')),
+    'C07': (obs_clip_mask, 'clip masks', gen.FAMILIES + ['shoc_standard_thirds'], None, ('lazy', 'raw', 'view_of_file', 'big_endian')),
     'C10': (obs_topology, 'mesh tables and polygons', ['ugrid', 'ugrid_edges', 'ugrid', 'ugrid_square_T', 'ugrid_big_faces', 'ugrid_edge_faces_only'], None, ('lazy', 'raw', 'view_of_file', 'big_endian', 'narrow_tables', 'mixed_precision', 'raw_unsigned')),
     'C11': (obs_detect, 'convention detection', gen.FAMILIES, None, ('lazy', 'raw', 'view_of_file', 'big_endian')),
     'C12': (obs_floor, 'ocean floor', ['cf1d', 'cf2d', 'shoc_standard', 'ugrid'], with_depth, ('lazy', 'raw', 'view_of_file', 'big_endian', 'transposed_view')),
